@@ -476,6 +476,8 @@ class SqliteHistory(History):
         self.outs = []
         self.tss = []
         self.cwds = []
+        # the history is empty now: nothing to compare the next command with
+        self._last_hist_inp = None
 
         xh_sqlite_wipe_session(sessionid=self.sessionid, filename=self.filename)
 
